@@ -482,17 +482,21 @@ func repRunCase(id string, in bhInput, gen *bhGenerator, pg *procGen, nrep int, 
 	} else if obs.ChildErr != "" {
 		c.OracleMsg = "the separate-process replica failed: " + obs.ChildErr
 	}
-	// K17 seen from C01: the replica that evaluates the crisis invariants every block (node-local inv-check-period)
-	// halts on the torn distribution records while the others go on; attributed only for that exact divergence
+	// K17 seen from C01: the replicas that evaluate the crisis invariants (node-local inv-check-period) halt in EndBlock
+	// on the torn distribution records while the others go on.  The crisis module panics with whatever the broken
+	// invariant route raises ("cannot set negative reference count", "no delegation distribution info", "negative coin
+	// amount", ...), so the class is not recognised by that text: it is attributed only when (a) the history has the
+	// input shape of K17, (b) every divergence is a halt in EndBlock of a replica while the leader goes on, and (c) the
+	// same history, run by the C15 driver, breaks nothing but the distribution module's reward bookkeeping (its own
+	// K17 verdict).  Anything else stays a violation.
 	if len(obs.Divergences) > 0 && bhToleratedPrecompileShape(in) {
 		all := true
 		for _, d := range obs.Divergences {
-			// "cannot set negative reference count" is x/distribution's panic, raised here by the crisis EndBlocker
-			if d.What != "panic" || d.Leader != "" || !strings.Contains(d.Other, "EndBlock panic: cannot set negative reference count") {
+			if d.What != "panic" || d.Leader != "" || !strings.Contains(d.Other, "EndBlock panic") {
 				all = false
 			}
 		}
-		if all {
+		if all && invRunCase(id+"#k17", in, nil).Class == classTornPrecompile {
 			c.Class = classTornPrecompile
 		}
 	}
